@@ -33,6 +33,9 @@ NONTRIVIAL = {
     # several commands in one transaction: an earlier delete_match, a write, the pattern command again
     "tx_delete_match_then_write_then_pattern_command", "tx_delete_match_repeated_with_the_identical_pattern",
     "tx_identical_delete_match_after_a_marked_store_key_was_written_again",
+    # an iteration consumed step by step while the store changes under it
+    "iter_matching_key_removed_between_steps", "iter_write_into_a_full_store_between_steps",
+    "iter_matching_key_expires_between_steps", "iter_matching_key_rewritten_between_steps",
 }
 
 TRUSTED = [
@@ -57,16 +60,17 @@ TRUSTED = [
 def evaluate(cases: list[dict]):
     """run the cases on the implementation and on the driver -> [(obs, answer, bad, diff)]"""
     obs = G.run_cases(cases)
-    lines, last = [], []
-    for c in cases:
-        ls = G.model_lines(c)
+    lines, spans = [], []
+    for c, o in zip(cases, obs):
+        ls = G.model_lines(c, o)        # an iteration consumed step by step is replayed with the steps the consumer really took
+        spans.append((len(lines), len(lines) + len(ls)))
         lines.extend(ls)
-        last.append(len(lines) - 1)
     answers = DRIVER.ask(lines)
     out = []
-    for c, o, i in zip(cases, obs, last):
-        bad, diff = G.judge(c, o, answers[i])
-        out.append((o, answers[i], bad, diff))
+    for c, o, (lo, hi) in zip(cases, obs, spans):
+        steps = [a for l, a in zip(lines[lo:hi], answers[lo:hi]) if l == "itnext"]
+        bad, diff = G.judge(c, o, answers[hi - 1], steps)
+        out.append((o, " ".join(steps) if c["kind"] == "iter" else answers[hi - 1], bad, diff))
     return out
 
 
@@ -103,6 +107,10 @@ def _with_slot(case: dict, slot, text: str):
         for op in c.get("txops") or []:
             if op[0] not in G.PATTERN_OPS and op[1] == x:
                 op[1] = text
+        for ops in c.get("between") or []:
+            for op in ops:
+                if op[0] in ("del", "set", "get") and op[1] == x:
+                    op[1] = text
     elif kind == "arg":
         c["args"][x] = text
     else:
@@ -128,6 +136,16 @@ def shrink(case: dict, want_bad: bool) -> dict:
             cur["txops"] = ddmin(ops, lambda o: failing(with_("txops", o), want_bad))
         if len(cur.get("txops") or []) == 1 and failing(with_("txops", []), want_bad):
             cur["txops"] = []
+        for i in range(len(cur.get("between") or [])):
+            def with_step(ops, i=i):
+                b = [list(x) for x in cur["between"]]
+                b[i] = ops
+                return with_("between", b)
+            if cur["between"][i]:
+                kept = ddmin(cur["between"][i], lambda ops: failing(with_step(ops), want_bad)) if len(cur["between"][i]) >= 2 else cur["between"][i]
+                if len(kept) == 1 and failing(with_step([]), want_bad):
+                    kept = []
+                cur = with_step(kept)
         if cur["kind"] != "invalidate" and len(cur["pattern"]) >= 2:
             chars = ddmin(list(cur["pattern"]), lambda cs: failing(with_("pattern", "".join(cs)), want_bad))
             cur["pattern"] = "".join(chars)
@@ -450,6 +468,19 @@ def run(chk: Check) -> int:
         st["tx_multi"] = len(multi)
         stop = run_batch(multi)
 
+    # 3c. iterations consumed step by step, the consumer working on the cache between two steps
+    if not stop:
+        iters = [(f"iter:{i}", c) for i, c in enumerate(G.iter_space())]
+        niter_gen = chk.budget(1500, 20000)
+        for i in range(niter_gen):
+            for _ in range(20):
+                c = G.gen_iter(rng, G.FULL_ALPHABET if rng.random() < 0.8 else G.SMALL_ALPHABET)
+                if G.well_formed(c):
+                    iters.append((f"gen:iter:{i}", c))
+                    break
+        st["iter_cases"] = len(iters)
+        stop = run_batch(iters)
+
     # 4. random longer patterns / keys over the full metacharacter alphabet, all entry points
     if not stop:
         stop = run_batch(gen_cases(chk, chk.budget(6000, 150000)))
@@ -490,6 +521,16 @@ def run(chk: Check) -> int:
         "pyglob_selfcheck_pairs": st.get("pyglob_selfcheck_pairs", 0),
         "corpus_cases": len(corpus),
         "tx_split_cases": st.get("tx_splits", 0),
+        "iteration_cases": st.get("iter_cases", 0),
+        "iteration_rule": "scan / get_match consumed STEP BY STEP (`__anext__` by `__anext__`) on Memory, the facade and the signed facade, the consumer "
+                          "issuing other commands between two steps: delete of a key (visited or not yet), write of a new or an existing key - into an "
+                          "unlimited store or into one that is exactly full (`size` = number of keys: the write evicts the least recently used key, "
+                          "possibly one the iteration has not reached) -, reads (which purge an expired key), delete_match, time advances that let a ttl "
+                          "elapse mid-iteration. Enumerated (both tiers): 4 keys x 12 consumer actions after the first item x 12 after the second x "
+                          "{scan, get_match} x 3 entry points x {unlimited, full} = 1728 cases; plus seeded random stores / patterns / actions (quick 1500, "
+                          "thorough 20000). Judged: no step raises; no key is yielded twice; every yielded key matches; every key that matched, was live "
+                          "at the start, was not touched by the consumer, whose ttl did not elapse and that is still there at the end was yielded (for "
+                          "get_match: with its own value); and every step equals the model's step (Glob.scanNext / getMatchNext on the snapshot)",
         "tx_multi_command_cases": st.get("tx_multi", 0),
         "tx_multi_command_rule": "inside one transaction: an earlier pattern command (delete_match with the judged pattern, delete_match with "
                                  "another pattern selecting part of / more than it, scan, get_match), then a write (set, set with ttl, delete) of one of "
